@@ -893,7 +893,15 @@ class Sandbox:
                 model_files[vp] = {"ext": mdefs}
             else:
                 p.write_text(v["raw"])
+                # a text without any YAML document (blank, comments, bare '---') declares no external type; anything else
+                # in this stream is either malformed YAML or a document that is not an external type definition
                 model_files[vp] = {"bad": True}
+                try:
+                    import yaml
+                    if all(doc is None for doc in yaml.safe_load_all(v["raw"])):
+                        model_files[vp] = {"ext": []}
+                except Exception:
+                    pass
         return root, model_files
 
     def run(self, files: dict, root_file: str, cwd: str = "/w", include_dirs=(), default_deriving=(), timeout=None, configured=False):
